@@ -51,12 +51,19 @@ def run_workers(prop, tier, seed, nshards, watchdog_s, replay=None):
     procs = []
     for i in range(nshards):
         out = os.path.join(work, 'shard_%d.json' % i)
-        cmd = [PY, '-m', 'rv.worker', prop, '--tier', tier, '--seed', str(seed), '--shard', str(i),
-               '--nshards', str(nshards), '--out', out]
+        # every fourth worker runs with asserts compiled out (python -O)
+        cmd = [PY] + (['-O'] if i % 4 == 3 and not replay else []) + ['-m', 'rv.worker', prop, '--tier', tier, '--seed', str(seed),
+                                                                          '--shard', str(i), '--nshards', str(nshards), '--out', out]
         if replay:
             cmd += ['--replay', replay]
         log = open(os.path.join(work, 'shard_%d.log' % i), 'w')
-        procs.append((subprocess.Popen(cmd, cwd=VERIF, env=worker_env(), stdout=log, stderr=subprocess.STDOUT), out, log))
+        env = worker_env()
+        # process environment varies per shard: local time zone east / west of UTC / UTC
+        env['TZ'] = ['UTC', 'JST-9', 'PST8PDT', 'UTC', 'CET-1CEST'][i % 5]
+        if i % 4 == 2:
+            env['LC_ALL'] = 'de_DE.UTF-8'      # a locale this machine does not have
+            env['LANG'] = 'de_DE.UTF-8'
+        procs.append((subprocess.Popen(cmd, cwd=VERIF, env=env, stdout=log, stderr=subprocess.STDOUT), out, log))
     results, problems = [], []
     deadline = time.time() + watchdog_s
     for p, out, log in procs:
